@@ -222,14 +222,12 @@ BYTEQUEUE_VERIF_GO = '''package bytequeue
 
 import "%s"
 
-// verif: registry of the queues created during a run, for the stranded-reader probe.
-var verifQueues []*queue
-
-func init() { simrt.OnReset(func() { verifQueues = nil }) }
+// verif: the queues created during a run are remembered in the simulator's registry (outside
+// this race-instrumented package), for the stranded-reader probe.
 
 func verifRegister(q *queue) {
 	if simrt.Active() {
-		verifQueues = append(verifQueues, q)
+		simrt.RegAdd("bytequeue", q)
 	}
 }
 
@@ -238,7 +236,8 @@ func verifRegister(q *queue) {
 // ReadWait in this state sleeps although a message is readable.
 func VerifStranded() int {
 	n := 0
-	for _, q := range verifQueues {
+	for _, x := range simrt.RegList("bytequeue") {
+		q := x.(*queue)
 		if q.closed || q.head == nil || len(q.more) == 0 || len(q.readChan) != 0 {
 			continue
 		}
@@ -367,7 +366,11 @@ def build(race=False, verbose=True):
         hd = os.path.join(bdir, "harness")
         cmd = [GO, "test", "-c", "-tags", "verif", "-overlay", os.path.join(bdir, "overlay.json"), "-o", binp]
         if race:
-            cmd.insert(3, "-race")
+            # the simulator and the harness are compiled without race instrumentation: their accesses are
+            # serialised by the baton, which is hidden from the detector on purpose (see simrt/race_on.go)
+            cmd[3:3] = ["-race",
+                        "-gcflags=github.com/basecomplextech/baselibrary/verifsim/...=-race=false",
+                        "-gcflags=verif/simcheck=-race=false"]
         run(cmd + ["."], cwd=hd)
         if verbose:
             sys.stderr.write("simbuild: built %s in %.1fs\n" % (binp, time.time() - t0))
